@@ -553,5 +553,18 @@ package dataflow
 //@   ensures next: istype(ref, *ssa.Next) && !ref.(*ssa.Next).IsString ==> called(markValue, state, i, ref.(*ssa.Next).Iter, path, mark)
 
 //@ func NewIndex
-//@   property C08
+//@   property C08 C01
 //@   pure
+//@   ensures value: result.Value == index && result.Kind == ReturnedTupleIndex
+
+// ---------------------------------------------------------------------------
+// C01 / C08: at a call that is not a handled builtin, EVERY argument (receiver
+// included) is marked as a call-site argument, and every tracking mark created for
+// the results is put on the call's value (one iteration of each loop).
+//@ func IntraAnalysisState.callCommonMark
+//@   property C01 C08
+//@   option havoc:*
+//@   requires state != nil
+//@   loop 1 body one_mark_per_result: called(FlowInformation.GetNewMark, _, _, CallReturn, _, where(x, x.Value == i))
+//@   loop arg body every_argument_marked: called(markValue, _, instr, arg, "", _)
+//@   loop mark body every_result_mark_applied: called(markValue, _, instr, value, _, _)
